@@ -225,12 +225,33 @@ def check_slice_ref(res, facts):
 
 
 def check_empty_splits(res, facts):
+    check_mut_splits(res, facts)
     for name in ("split_off", "split_to"):
         l = facts.by_id.get("bytes::Bytes::" + name, [])
         if len(l) != 1:
             raise RuleError("Bytes::%s not found" % name)
         with_fallback(res, facts, l[0], "bytes::Bytes::%s|empty results keep the address" % name, lambda b: empty_split_probs(facts, b),
                       "at == len -> empty at self.ptr + at; at == 0 -> empty at self.ptr", keep=("new_empty_with_ptr",))
+
+
+def check_mut_splits(res, facts):
+    """BytesMut::{split_off, split_to, split}: every returned handle is cut out of `self` (a shallow clone of it), never a fresh one"""
+    from .flow import PathExprBuilder, enumerate_paths
+    for name in ("split_off", "split_to", "split"):
+        l = facts.by_id.get("bytes_mut::BytesMut::" + name, [])
+        if len(l) != 1:
+            continue
+        b = l[0]
+        key = "bytes_mut::BytesMut::%s|result is cut out of self" % name
+
+        def probs_of(v):
+            for path in enumerate_paths(v, limit=400):
+                pe = PathExprBuilder(v, facts, path, inline=False)
+                r = canon(pe.local(0, (path[-1], len(v.blocks[path[-1]]["stmts"]))))
+                if not any(x == ("param", 1) for x in walk(r)):
+                    return ["a path returns a handle that is not derived from self (%s): the result does not keep the address" % fmt_expr(r)[:60]]
+            return []
+        with_fallback(res, facts, b, key, probs_of, "every return path yields a handle derived from self")
 
 
 def empty_split_probs(facts, b):
@@ -249,6 +270,15 @@ def empty_split_probs(facts, b):
             sites.append((bi, arg, ctx, ctx.eq(at, selflen), ctx.eq(at, ("const", 0))))
     if len(sites) != 2:
         probs.append("expected two empty-result sites (at == len, at == 0), found %d" % len(sites))
+    # every returned handle comes out of `self` (its clone, an empty handle at an address derived from self.ptr, or the old
+    # `*self` swapped out): a fresh handle (`Bytes::new()`, `from_static(..)`) would sit at an unrelated address
+    from .flow import PathExprBuilder, enumerate_paths
+    for path in enumerate_paths(b, limit=400):
+        pe = PathExprBuilder(b, facts, path, inline=False)
+        r = canon(pe.local(0, (path[-1], len(b.blocks[path[-1]]["stmts"]))))
+        if not any(x == ("param", 1) for x in walk(r)):
+            probs.append("a path returns a handle that is not derived from self (%s): the result does not keep the address" % fmt_expr(r)[:60])
+            break
     for (bi, arg, ctx, at_len, at_zero) in sites:
         if arg == selfptr:
             off = ("const", 0)
